@@ -211,6 +211,23 @@ fn stack_conformance<const PRE: usize, const K: usize>(known_event_only: bool, o
     core::mem::forget(real);
 }
 
+/// The characterised schedule of KF-C05-1, concrete operations, symbolic element value.
+fn known_nested_clear() {
+    let v = nd::u8();
+    let mut real: Stack<u8> = Stack::new();
+    real.push(v);
+    real.snapshot(); // outer attempt (e.g. an alternative of a choice)
+    real.snapshot(); // inner attempt (e.g. an optional inside it)
+    let p = real.pop(); // the inner attempt pops an element older than both snapshots
+    assert!(p == Some(v));
+    real.clear_snapshot(); // the inner attempt succeeds
+    real.restore(); // the outer attempt fails: everything must be as before it started
+    cover!(true, "schedule executed");
+    assert!(real.len() == 1, "element popped inside a cleared inner snapshot is not restored by the outer restore");
+    assert!(real.peek().copied() == Some(v), "restored element differs");
+    core::mem::forget(real);
+}
+
 harnesses! {
     // ---- C05-U (i): failed attempts with mixed stack effects, abstract children, vs the by-value reference
     #[kani::unwind(8)] fn c05_choice_poppush() [T0 S] : "Q|Choice2<Seq3<pop,push,x>, depth-reader>: a failed first alternative that popped and pushed leaves no trace; depth 2" {
@@ -244,14 +261,12 @@ harnesses! {
     #[kani::unwind(8)] fn c05_failed_choice_restores() [T0 S] : "Q|Choice3 with every alternative failing after stack effects leaves the stack as it was; depth 2" {
         failed_choice_restores::<Choice3<PopPushX, PushPushX, PopPopX>>(2) }
     // ---- C05-S: the real pest::Stack against the model
-    #[kani::unwind(8)] fn c05_s_stack_outer_1_3() [] : "Q|real pest::Stack<u8> == copy-on-snapshot model: 1 initial element, outer snapshot, every well-nested segment of 3 operations {push v,pop,snapshot,clear_snapshot,restore}, closing restores; the one characterised pest defect (KF-C05-1) assumed away" {
-        stack_conformance::<1, 3>(false, true) }
-    #[kani::unwind(8)] fn c05_s_stack_free_0_3() [] : "Q|same without the outer skeleton: 3 free operations from the empty stack" {
+    #[kani::unwind(8)] fn c05_s_stack_free_0_3() [] : "Q|real pest::Stack<u8> == copy-on-snapshot model under every well-nested schedule of 3 operations {push v,pop,snapshot,clear_snapshot,restore} from the empty stack (the one characterised pest defect, KF-C05-1, assumed away)" {
         stack_conformance::<0, 3>(false, false) }
+    #[kani::unwind(8)] fn c05_s_stack_free_1_3() [] : "Q|same, 3 operations from 1 initial element" {
+        stack_conformance::<1, 3>(false, false) }
     #[kani::unwind(8)] fn c05_s_stack_free_0_4() [] : "T|4 free operations from the empty stack" {
         stack_conformance::<0, 4>(false, false) }
-    #[kani::unwind(8)] fn c05_s_stack_outer_2_4() [] : "T|2 initial elements, outer snapshot, segments of 4 operations" {
-        stack_conformance::<2, 4>(false, true) }
-    #[kani::unwind(8)] fn c05_k_stack_nested_clear() [] : "K|twin: conformance asserted exactly on schedules that clear an inner snapshot during which an older element was popped while an outer snapshot is open (pest 2.7.14 clear_snapshot loses it) - expected to FAIL" {
-        stack_conformance::<1, 3>(true, true) }
+    #[kani::unwind(8)] fn c05_k_stack_nested_clear() [] : "K|twin: the characterised schedule itself on the real pest::Stack<u8> with a symbolic element: push v; snapshot; snapshot; pop; clear_snapshot; restore must give back [v] (pest 2.7.14 clear_snapshot loses it) - expected to FAIL" {
+        known_nested_clear() }
 }
